@@ -785,6 +785,134 @@ def _resolve_arith_locals(f, t, depth=0):
     return t
 
 
+def _window_from_search_calls(f, ER):
+    obs = []
+    P = ('local', 'P', -1)
+    for c in f.calls(pred=lambda nd: nd.get('ct') in kinds.UPPER + kinds.LOWER):
+        if not reachable(f, c):
+            continue
+        a = f.n(c)['args']
+        t0 = _resolve_arith_locals(f, norm_tparams(expand_calls(f.unit, f.term(a[0], inline=True))))
+        t1 = _resolve_arith_locals(f, norm_tparams(expand_calls(f.unit, f.term(a[1], inline=True))))
+        b0, o0 = _split_base_offset(t0)
+        b1, o1 = _split_base_offset(t1)
+        if b0 is None or b1 is None or b0 != b1:
+            continue
+        # the centre: the largest std::min(...) term common to both offsets (the capped estimate)
+        mins0 = [x for x in subterms(o0) if x[0] == 'call' and x[1] == 'std::min']
+        common = [x for x in mins0 if contains(o1, x)]
+        if not common:
+            continue
+        centre = max(common, key=lambda x: len(repr(x)))
+
+        def peel(o):
+            # segments.begin() + (levels_offsets[l] + f(P)): the start of the level may be part of the integer offset
+            moved = []
+            for _ in range(3):
+                oo = _strip_cast(o)
+                if oo[0] == 'op' and len(oo) == 4 and oo[1] == '+':
+                    x, y = _strip_cast(oo[2]), _strip_cast(oo[3])
+                    if not contains(x, centre) and x[0] != 'lit' and contains(y, centre):
+                        moved.append(x)
+                        o = y
+                        continue
+                    if not contains(y, centre) and y[0] != 'lit' and contains(x, centre) and not (y[0] == 'tparam' or contains(y, ER)):
+                        moved.append(y)
+                        o = x
+                        continue
+                break
+            return o, tuple(moved)
+        o0, m0 = peel(o0)
+        o1, m1 = peel(o1)
+        if m0 != m1:
+            continue
+
+        def sub(t):
+            if t == centre:
+                return P
+            if isinstance(t, tuple):
+                return tuple(sub(x) for x in t)
+            return t
+        o0s, o1s = sub(o0), sub(o1)
+        try:
+            ok0, why0 = form.equivalent(o0s, form.SUB(P, ('op', '+', ER, ('lit', 1))))
+            st0 = OK if ok0 else VIOLATED
+        except form.Unrecognised as e:
+            ok0, why0, st0 = False, f"unrecognised shape: {e}", UNDECIDED
+        obs.append(Ob('WINDOW-FORM', f, a[0], 'window start = level_begin + (pos <= EpsRec+1 ? 0 : pos - (EpsRec+1))',
+                      f"bisection starts at `{fmt_term(b0)[:30]} + {fmt_term(o0s)[:90]}` (P = the capped estimate)" + ('' if ok0 else f" — {why0}"), st0, arm='lo'))
+        # the level size: a variable, a call, or a whole expression (levels_offsets[l + 1] - levels_offsets[l] - 1) not involving P;
+        # a compound size is replaced by one symbol as well
+        cands = [x for x in subterms(o1s) if x[0] in ('local', 'call', 'field', 'op', 'index') and x != P and not contains(x, P) and
+                 not (x[0] == 'op' and x[1] not in ('+', '-'))]
+        cands = sorted(set(cands), key=lambda x: -len(repr(x)))
+        ok1, why1, st1, first_why = False, 'no level-size term found', UNDECIDED, None
+        SZ = ('local', 'LEVEL_SIZE', -2)
+        for s_ in cands:
+            def subs(t, s_=s_):
+                if t == s_:
+                    return SZ
+                if isinstance(t, tuple):
+                    return tuple(subs(x) for x in t)
+                return t
+            try:
+                ok1, why1 = form.equivalent(subs(o1s), form.ADD(P, ER, SZ))
+            except form.Unrecognised:
+                continue
+            if first_why is None:
+                first_why = why1
+            if ok1:
+                break
+        if ok1:
+            st1 = OK
+        elif first_why is not None:
+            why1, st1 = first_why, VIOLATED
+        obs.append(Ob('WINDOW-FORM', f, a[1], 'window end = level_begin + (pos+EpsRec+2 >= level_size ? level_size : pos+EpsRec+2)',
+                      f"bisection ends at `{fmt_term(b1)[:30]} + {fmt_term(o1s)[:110]}` (P = the capped estimate)" + ('' if ok1 else f" — {why1}"), st1, arm='hi'))
+    # the forward scan: its cursor is set to level_begin + SUB(P, EpsRec + 1) before the loop (for-init or a statement)
+    g = graph(f)
+    cursors = set()
+    for b in g.reach:
+        c = g.cond(b)
+        sc = kinds._scan_cond(f, c) if c else None
+        if sc:
+            cursors.add(sc[0][2])
+    for vid in cursors:
+        d = f.defs.get(vid, {})
+        srcs = ([d['init']] if d.get('init') else [])
+        for w in d.get('writes', []):
+            nd = f.n(w)
+            if nd.get('op') == '=':
+                srcs.append(nd['args'][1] if nd['c'] == 'CXXOperatorCallExpr' else nd['ch'][1])
+        for sn in srcs:
+            if not reachable(f, sn):
+                continue
+            t0 = _resolve_arith_locals(f, norm_tparams(expand_calls(f.unit, f.term(sn, inline=True))))
+            b0, o0 = _split_base_offset(t0)
+            if b0 is None:
+                continue
+            mins0 = [x for x in subterms(o0) if x[0] == 'call' and x[1] == 'std::min']
+            if not mins0:
+                continue
+            centre = max(mins0, key=lambda x: len(repr(x)))
+
+            def sub2(t, centre=centre):
+                if t == centre:
+                    return P
+                if isinstance(t, tuple):
+                    return tuple(sub2(x) for x in t)
+                return t
+            o0s = sub2(o0)
+            try:
+                ok0, why0 = form.equivalent(o0s, form.SUB(P, ('op', '+', ER, ('lit', 1))))
+                st0 = OK if ok0 else VIOLATED
+            except form.Unrecognised as e:
+                ok0, why0, st0 = False, f"unrecognised shape: {e}", UNDECIDED
+            obs.append(Ob('WINDOW-FORM', f, sn, 'window start = level_begin + (pos <= EpsRec+1 ? 0 : pos - (EpsRec+1))',
+                          f"the forward scan starts at `{fmt_term(b0)[:30]} + {fmt_term(o0s)[:90]}` (P = the capped estimate)" + ('' if ok0 else f" — {why0}"), st0, arm='lo'))
+    return obs
+
+
 def rule_window_form(ctx, which, units=None):
     """per level: lo = level_begin + SUB(pos, EpsilonRecursive+1); binary arm: hi = level_begin + ADD(pos, EpsilonRecursive, level_size)"""
     obs = []
@@ -888,6 +1016,13 @@ def rule_window_form(ctx, which, units=None):
             obs.append(Ob('WINDOW-FORM', f, d['decl'], req, f"`{d['name']} = {fmt_term(base)[:30]} + {fmt_term(off)[:110]}`" + ('' if ok else f" — {why}"),
                           OK if ok else (UNDECIDED if und else VIOLATED), arm=role))
         if found_lo == 0:
+            # expression-centred fallback: the window as the argument terms of the bisection itself (bindings of a helper's pair,
+            # offsets kept as integers and added to level_begin at the call).  The centre - the capped estimate, whatever its
+            # spelling - is replaced by one symbol before the forms are compared.
+            fb = _window_from_search_calls(f, ER)
+            if fb:
+                obs += fb
+                continue
             # nothing of the shape this rule knows (a local `lo = level_begin + f(pos)`): the routing may be written on indices or
             # without a named window start - not a verdict
             obs.append(Ob('WINDOW-FORM', f, 0, 'a routing window start per level', 'no window start of the form level_begin + f(pos, EpsilonRecursive) found', UNDECIDED, arm='lo'))
